@@ -11,5 +11,5 @@ CONSTANTS
   ScenCfg <- MC_Scen_plain
   ScenTree <- MC_Tree_links
 VIEW View
-INVARIANTS TreeOK HandlesOK ContainedOK OutsideFrozen NameGateOK MirrorOK Report
+INVARIANTS TreeOK HandlesOK SwitchesOK ContainedOK OutsideFrozen NameGateOK MirrorOK Report
 CHECK_DEADLOCK FALSE
